@@ -36,7 +36,7 @@ def alphabet(world, prop):
         # a tick during which the database fails at its second run-id draw (farm.dispatch allows for it)
         ev.append(('DBFAULT', 2))
     ocs = {'C01': ('ok-new', 'ok-old', 'fail'), 'C03': ('ok-new', 'ok-old', 'fail'),
-           'C04': OUTCOMES, 'C05': ('ok-new', 'fail'), 'C02': ('ok-11', 'ok-10', 'ok-01', 'ok-00', 'fail')}[prop]
+           'C04': OUTCOMES, 'C05': ('ok-new', 'fail', 'invalid'), 'C02': ('ok-11', 'ok-10', 'ok-01', 'ok-00', 'fail')}[prop]
     for which in ('oldest', 'newest'):
         for oc in ocs:
             ev.append(('REPLY', which, oc))
